@@ -39,3 +39,28 @@ def setup(E):
             ])},
         canary="result == ''",
         props=["C15"]))
+
+
+def _format_synteny(E):
+    add = E.registry.add
+    MS = "superrec2.model.synteny"
+    # ordered syntenies (sequences of family names): the label is the families in order, comma separated, then wrapped
+    add(Contract(
+        f"{MS}:format_synteny", params={"synteny": "Seq[Str]", "width": "Opt[Int]"}, returns="Str", defaults={"width": None},
+        requires=["implies(width is not None, the(width) >= 1)"],
+        ensures=[
+            ("unwrapped", "implies(width is None, result == str_join(', ', synteny))"),
+            ("wrapped", """implies(width is not None and str_join(', ', synteny) != '', exists(lambda w: 1 <= w and w <= the(width)
+                   and result == str_join('\\n', wrap_spec(str_join(', ', synteny), w))
+                   and len(wrap_spec(str_join(', ', synteny), w)) == len(wrap_spec(str_join(', ', synteny), the(width))), Int))"""),
+            ("wrapped-empty", "implies(width is not None and str_join(', ', synteny) == '', result == '')"),
+        ],
+        props=["C15"]))
+
+
+_setup_wrap = setup
+
+
+def setup(E):  # noqa: F811
+    _setup_wrap(E)
+    _format_synteny(E)
